@@ -28,7 +28,8 @@ func init() {
 			"(e) second directed enumeration, independent of the seed: one range of 9..65537 pages whose page count is not a power of two (and of 2^16, 2^18+1, 2^19, 2^19+1, 2^20-1 pages), low or ending exactly at 4 GiB, first or last in the list, per kind; lists of 13..1000 pairwise-disjoint ranges in non-monotonic address order with the mandatory kinds on the first or the last three entries; lists of 33..300 ranges with exactly one defect that involves only the last entries (identical / second-page overlap of the last two, last with fifth, duplicate CPUID / secrets, unknown kind, zero length, bad length, misaligned address). " +
 			"(f) sequences: one caller makes 28-44 calls (both entry points, vCPU counts 1..300 and the table, both products) on sibling images (base; one filler byte / the reset address / the order of two ranges / the place of one range changed; one defect added; unrelated images of the same and of another size; ranges stretched to 1..300 pages) that are copied into ONE arena refilled in place or passed in buffers of their own, with ONE LaunchOptions and ONE SnpEndorsementRequest value kept for the whole history (only the fields that change are written) or fresh ones, refused calls (vCPU count < 1, malformed sibling) before good ones; results are kept as returned and compared again after every later call, a quarter of them is overwritten by the caller and the identical call made again. " +
 			"(g) contents: a well-formed image of 5..40 pages in which 1..6 pages that hold neither the table nor the metadata are overwritten with the pages A and B of one pair, in a drawn pattern over neighbouring or scattered pages: A and B identical; constant (0x00, 0xff, ...) and one bit / one byte / another constant apart; one bit apart (first / last byte, word and half-page boundaries, anywhere); same byte histogram (two words swapped, rotated by one byte); different but with equal CRC-32 (IEEE, Castagnoli, Koopman), CRC-64 (ISO, ECMA) and XOR fold at once (difference from the common kernel, confined to 64 / 256 / 4096 bytes); with equal Adler-32, byte sum and 16/32/64-bit word sums; with equal FNV-1a-32, FNV-1-32, x31 and x33 string hash (equal first 4088 bytes, birthday search over the last 8); for a third of the cases A is the page that holds the GUIDed table or the metadata header and B shares its fingerprint. The arrangements mixed, all-A, letters swapped, all-B and mixed again are measured one after the other with one vCPU count and product (the first twice and with a second combination, a quarter also through sev.UnsignedSnp). " +
-			"Oracle: the image is re-parsed by the model (must equal the generator's spec); accepted (err==nil) => the parsed section list is in none of C04's malformed classes (64-bit arithmetic) and the digest equals the model's PAGE_INFO/SHA-384 chain; both calls agree; image and options unchanged; a concurrent call returns the model's digest, refuses malformed images and equals the same call made alone; in a sequence every call is judged by the same rules against what the caller last wrote into its options / request, and a result the caller kept still reads as returned after every later call. Rejections are counted, never judged. " +
+			"(h) cold start: the worker re-executes itself 6 times per case; in each fresh process the FIRST calls into the repository are made by 2..64 goroutines released on a barrier (a quarter of the processes: one call alone first), on one image shared by all, on own images of one size or of mixed sizes, with one drawn combination for everybody's first call or one per goroutine, both entry points, a malformed image among them; each goroutine then makes 0..2 more calls; the fresh process only reports what was returned, the parent judges. " +
+			"Oracle: the image is re-parsed by the model (must equal the generator's spec); accepted (err==nil) => the parsed section list is in none of C04's malformed classes (64-bit arithmetic) and the digest equals the model's PAGE_INFO/SHA-384 chain; both calls agree; image and options unchanged; a concurrent call returns the model's digest, refuses malformed images and equals the same call made alone; in a sequence every call is judged by the same rules against what the caller last wrote into its options / request, and a result the caller kept still reads as returned after every later call; a call made in a fresh process returns the model's digest, refuses malformed images and equals the same call made in the warm worker. Rejections are counted, never judged. " +
 			"non-trivial cell = (entry point, generator class, vCPU class, product, outcome) in which the tool accepted (digest compared) or the image was model-malformed (acceptance decided)",
 		Assumptions: []string{
 			"mandatory kinds are unmeasured (1), secrets (2) and CPUID (3), as the repository's own error texts name them; SVSM-CAA (4) is optional and measured as ZERO pages",
@@ -139,6 +140,8 @@ type wl struct {
 
 	contEqual                       map[string]int // per fingerprint family: accepted-equal with both pages of the pair in one image
 	contStructEqual, contLaterEqual int
+
+	coldChildren, coldCalls, coldEqual, coldFirstEqual, coldRefused int
 }
 
 func run(c *core.Ctx) {
@@ -156,7 +159,9 @@ func run(c *core.Ctx) {
 	first2 := nDir + nEx + nWf + nMal + nConc
 	nCont := c.N(300, 3000)
 	first3 := first2 + nDir2 + nSeq
-	n := first3 + nCont
+	nCold := c.N(24, 160)
+	first4 := first3 + nCont
+	n := first4 + nCold
 	for i := 0; i < n; i++ {
 		if !c.Mine(i) {
 			continue
@@ -185,6 +190,8 @@ func run(c *core.Ctx) {
 			}
 			w.image(i, r, fmt.Sprintf("wellformed#%d %s", i, layoutClass(secs)), cls, sp, 3, i%4 == 0)
 			c.Count("cases/wellformed", 1)
+		case i >= first4:
+			w.cold(i, r)
 		case i >= first3:
 			w.contents(i, r, i-first3)
 		case i >= first2+nDir2:
@@ -251,6 +258,7 @@ func run(c *core.Ctx) {
 	}
 	c.Floor("contents:accepted-equal-with-a-page-that-shares-the-fingerprint-of-the-table-or-metadata-page", w.contStructEqual > 0)
 	c.Floor("contents:accepted-equal-on-a-later-arrangement-of-the-same-pair", w.contLaterEqual > 0)
+	c.Floor("cold-start:fresh-processes-ran-and-first-calls-released-together-were-accepted-equal(refusals-observed)", w.coldChildren > 0 && w.coldFirstEqual > 0 && w.coldRefused > 0)
 	c.Floor("accepted-on-genoa", w.genoa > 0)
 	c.Floor("accepted-rom-of->1-page", w.multiPageRom > 0)
 }
